@@ -7,6 +7,9 @@ for a plain run and for explicit-path runs; plus a short real history (two_steps
 Replay: real directory put into the witness state (db create + edits + hash file), real
 `db reindex`, compared with a fresh `db create` on a copy of the final files.
 """
+import os as _os
+_os.environ["XH_NO_PATCH"] = "1"   # this process replays on the real code: never patch zorg here
+
 import hashlib
 import importlib.util
 import json
